@@ -220,7 +220,7 @@ def _conjuncts(g):
   return [g]
 
 
-def solve_witness(idx, elim, fresh_idx, guard=None):
+def solve_witness(idx, elim, fresh_idx, guard=None, inverses=None):
   """for each var in elim find dim d with idx[d] = base + c*var (c concrete != 0, base free of
   elim vars); return {var: witness term over fresh_idx} or None"""
   wit = {}
@@ -233,6 +233,16 @@ def solve_witness(idx, elim, fresh_idx, guard=None):
         continue
       if v.decl().name() not in free_consts(e):
         continue
+      x = fresh_idx[d]
+      # index through a model table with a declared ghost inverse: idx = f(arg(v)) -> arg = finv(x)
+      if inverses and z3.is_app(e) and e.decl().kind() == z3.Z3_OP_UNINTERPRETED and e.decl().name() in inverses and e.num_args() >= 1:
+        inv = inverses[e.decl().name()]
+        args = e.children()
+        # last argument carries the counter (leading ones are e.g. world-modulo indices)
+        lead = args[:-1]
+        if not any(free_consts(a) & elim_names for a in lead):
+          x = inv(*lead, x)
+          e = args[-1]
       e1 = z3.simplify(z3.substitute(e, (v, z3.IntVal(1))) - z3.substitute(e, (v, z3.IntVal(0))))
       if not z3.is_int_value(e1):
         continue
@@ -248,7 +258,6 @@ def solve_witness(idx, elim, fresh_idx, guard=None):
       s.add(e != base + c * v)
       if s.check() != z3.unsat:
         continue
-      x = fresh_idx[d]
       wit[v] = (x - base) / c if c != 1 else (x - base)
       used.add(d)
       found = True
@@ -345,7 +354,7 @@ def summarise_stores(ex, body_log, arrs_before, outer_bound, fr_key, lineno, par
         fidx = _full_idx(w)
         elim = [b for b in w.bound if b.decl().name() not in outer_names]
         fresh_idx = [z3.Int(f"x!{d}") for d in range(len(fidx))]
-        wit = solve_witness([lift(i) for i in fidx], elim, fresh_idx, zb(w.guard))
+        wit = solve_witness([lift(i) for i in fidx], elim, fresh_idx, zb(w.guard), getattr(ex, 'inverses', None))
         if wit is None:
           ok, why = False, "store index not solvable for the loop counter"
           break
